@@ -1119,6 +1119,10 @@ class Evaluator(object):
             ok = True  # a tuple cannot be changed in place, wherever it travels
         if t is not None and t.op in ("list", "dict", "set") and name not in _mutated_globals(self.P.modules[modname]):
             ok = True
+        if t is not None and t.op == "call" and tm.callee_name(t.a[0]) == "functools.partial" and name not in _rebound_globals(self.P.modules[modname]):
+            ok = True  # a partial application bound once at module level is the function it abbreviates
+        if t is not None and t.op == "lambda" and name not in _rebound_globals(self.P.modules[modname]):
+            ok = True
         if not ok:
             return None
         # read the display as a function body would: names of the reference inventory stay named (glob / func terms)
@@ -1790,6 +1794,9 @@ class Evaluator(object):
             return tm.ite(fn.a[0], self.apply(fn.a[1], args, kw), self.apply(fn.a[2], args, kw))
         if fn.op in ("undef", "unk"):
             return tm.unk("call-of-" + fn.op)
+        if fn.op == "call" and tm.callee_name(fn.a[0]) == "functools.partial" and fn.a[1] and not any(z.op == "star" for z in fn.a[1]):
+            later = {k_ for k_, _ in kw}
+            return self.apply(fn.a[1][0], tuple(fn.a[1][1:]) + tuple(args), tuple((k_, v_) for k_, v_ in fn.a[2] if k_ not in later) + tuple(kw))
         if fn.op == "lambda" and not kw and len(args) == len(fn.a[0]) and not any(a.op == "star" for a in args):
             # (lambda p: E)(a) is E with a for p
             bind = dict(zip(fn.a[0], args))
